@@ -931,9 +931,20 @@ impl<const N: usize> SubscriptionsInner<N> {
     ) where
         B: Buffers<IMBuffer> + 'a,
     {
-        // Always clear the reporting slot; it was populated in `report()`.
-        self.reporting = None;
-        let cancelled = self.reporting_cancelled.take();
+        // Clear the reporting slot - if it is this subscription that occupies it: the slot is
+        // populated by `report()` only, while the context of a subscription being primed
+        // (`add()`) completes through here as well and must neither free the slot of a report
+        // in flight nor take over a cancellation meant for that report.
+        let in_flight = self
+            .reporting
+            .as_ref()
+            .is_some_and(|reporting| reporting.ids().id == sub.ids().id);
+        let cancelled = if in_flight {
+            self.reporting = None;
+            self.reporting_cancelled.take()
+        } else {
+            None
+        };
 
         if let Some(reason) = cancelled {
             info!(
